@@ -368,13 +368,13 @@ class _Captured(Exception):
         self.x0 = x0
 
 
-@obligation(PID, "e", title="sym_eig_trunc: padded diagonal entries written before diagonalisation lie above every Gershgorin disc of the physical block, are pairwise distinct, and the padding block is decoupled")
+@obligation(PID, "e", title="sym_eig_trunc: every matrix handed to the eigen-solver is the physical block of its own molecule (and spin), padded diagonal entries lie above every Gershgorin disc of that block, are pairwise distinct, and the padding block is decoupled — restricted batches and unrestricted (alpha/beta) batches of heterogeneous molecules")
 def ob_e(ob):
     from seqm.seqm_functions import diag as DG
     from seqm.seqm_functions import pack as PK
 
     ob.encodes(DG.sym_eig_trunc, PK.pack, PK.packone, PK._pack_batch_same)
-    ob.bound("batch of 2 molecules padded to molsize 2 (8x8 Fock matrices): layouts {(1 heavy,1 H),(0,2)}, {(2,0),(0,1)}, {(1,0),(1,1)}; physical entries symbolic symmetric, spectral range dE>0")
+    ob.bound("batch of 2 molecules padded to molsize 2 (8x8 Fock matrices): restricted layouts {(1 heavy,1 H),(0,2)}, {(2,0),(0,1)}, {(1,1),(0,1)}, {(1,0),(0,4)}, {(0,4),(1,0)}; unrestricted (2 spin blocks per molecule, independent symbols) layouts {(1,1),(0,2)}, {(0,4),(1,0)}, {(1,0),(1,1)}; physical entries symbolic symmetric, spectral range dE>0")
     ob.assume("eigen-solver stubbed by a recorder (its contract is LAPACK's); Gershgorin's theorem")
 
     def rec(x0):
@@ -383,23 +383,29 @@ def ob_e(ob):
     saved = (DG.DEGEN_EIGENSOLVER, DG.pytorch_symeig)
     DG.DEGEN_EIGENSOLVER = False
     DG.pytorch_symeig = rec
+    cases = [(False, l) for l in (([1, 0], [1, 2]), ([2, 0], [0, 1]), ([1, 1], [0, 1]), ([1, 0], [0, 4]), ([0, 1], [4, 0]))] + [(True, l) for l in (([1, 0], [1, 2]), ([0, 1], [4, 0]), ([1, 1], [0, 1]))]
     try:
-        for nheavy, nH in (([1, 0], [1, 2]), ([2, 0], [0, 1]), ([1, 1], [0, 1]), ([1, 0], [0, 4]), ([0, 1], [4, 0])):
+        for uhf, (nheavy, nH) in cases:
             nheavy_t, nH_t = torch.tensor(nheavy), torch.tensor(nH)
             N = 4 * max(a + b for a, b in zip(nheavy, nH))
-            X = np.full((2, N, N), z3.RealVal(0), dtype=object)
+            nspin = 2 if uhf else 1
+            X = np.full((2, nspin, N, N), z3.RealVal(0), dtype=object)
             phys = []
             for b in range(2):
                 idx = list(range(4 * nheavy[b])) + [4 * nheavy[b] + 4 * h for h in range(nH[b])]
                 phys.append(idx)
-                for ii, i in enumerate(idx):
-                    for j in idx[ii:]:
-                        X[b, i, j] = X[b, j, i] = z3.Real("x%d_%d_%d" % (b, i, j))
+                for sp in range(nspin):
+                    for ii, i in enumerate(idx):
+                        for j in idx[ii:]:
+                            X[b, sp, i, j] = X[b, sp, j, i] = z3.Real("x%d%s_%d_%d" % (b, "ab"[sp] if uhf else "", i, j))
 
             def fn():
                 try:
                     with symbolic_factories():
-                        DG.sym_eig_trunc(SymTensor(X.copy()), nheavy_t, nH_t, torch.tensor([1, 1]))
+                        if uhf:
+                            DG.sym_eig_trunc(SymTensor(X.copy()), nheavy_t, nH_t, torch.tensor([[1, 1], [1, 1]]))
+                        else:
+                            DG.sym_eig_trunc(SymTensor(X[:, 0].copy()), nheavy_t, nH_t, torch.tensor([1, 1]))
                 except _Captured as c:
                     return c.x0.a.copy()
                 raise HarnessError("eigen-solver stub not reached")
@@ -410,19 +416,23 @@ def ob_e(ob):
             for pc, side, x0 in res:
                 S.ST.side[:] = side
                 size = x0.shape[1]
-                for b in range(2):
+                ob.require(x0.shape[0] == 2 * nspin, "unexpected number of matrices handed to the eigen-solver: %d" % x0.shape[0])
+                for f in range(2 * nspin):
+                    b, sp = (f // 2, f % 2) if uhf else (f, 0)
                     norb = len(phys[b])
+                    Xb = X[b, sp]
+                    tag = "%s layout %s/%s mol %d%s" % ("UHF" if uhf else "RHF", nheavy, nH, b, (" spin %d" % sp) if uhf else "")
                     # packing is faithful: the leading block handed to the eigen-solver is exactly this molecule's physical block
-                    faithful = all(z3.is_true(z3.simplify(x0[b, ii, jj] == X[b, phys[b][ii], phys[b][jj]])) for ii in range(norb) for jj in range(norb))
+                    faithful = norb <= size and all(z3.is_true(z3.simplify(x0[f, ii, jj] == Xb[phys[b][ii], phys[b][jj]])) for ii in range(norb) for jj in range(norb))
                     if faithful:
                         ob.discharged("e:pack faithful")
                     else:
-                        vv = [smt.prove(x0[b, ii, jj] == X[b, phys[b][ii], phys[b][jj]], list(pc), "e:pack[%d,%d]" % (ii, jj), "auto", 30)[0] for ii in range(norb) for jj in range(norb)]
-                        if "sat" in vv:
-                            if replay_padding_shift(nheavy, nH):
-                                ob.violation("pack(): the matrix handed to the eigen-solver for molecule %d of layout nHeavy=%s nHydro=%s is not that molecule's physical block" % (b, nheavy, nH), {"module": "harness.C03", "func": "replay_padding_shift", "args": {"nheavy": nheavy, "nH": nH}})
-                            else:
-                                raise HarnessError("pack counterexample did not reproduce")
+                        vv = [smt.prove(x0[f, ii, jj] == Xb[phys[b][ii], phys[b][jj]], list(pc), "e:pack[%d,%d]" % (ii, jj), "auto", 30)[0] for ii in range(min(norb, size)) for jj in range(min(norb, size))]
+                        if "sat" in vv or norb > size:
+                            if replay_padding_shift(nheavy, nH, uhf):
+                                ob.violation("the matrix handed to the eigen-solver for %s is not that molecule's physical block" % tag, {"module": "harness.C03", "func": "replay_padding_shift", "args": {"nheavy": nheavy, "nH": nH, "uhf": uhf}})
+                                return
+                            raise HarnessError("pack counterexample did not reproduce (%s)" % tag)
                         elif "unknown" in vv:
                             ob.inconclusive("e:pack faithful")
                         else:
@@ -432,37 +442,34 @@ def ob_e(ob):
                     # Gershgorin bounds of the physical rows of the packed matrix
                     ups, los = [], []
                     for i in range(norb):
-                        r = sum(absz(x0[b, i, j]) for j in range(size) if j != i)
-                        ups.append(x0[b, i, i] + r)
-                        los.append(x0[b, i, i] - r)
+                        r = sum(absz(x0[f, i, j]) for j in range(size) if j != i)
+                        ups.append(x0[f, i, i] + r)
+                        los.append(x0[f, i, i] - r)
                     dEpos = z3.Or(*[u > l for u in ups for l in los])
                     base = list(pc) + [dEpos]
-                    lab = "e:layout %s/%s mol %d" % (nheavy, nH, b)
+                    lab = "e:" + tag
                     claims = []
                     for p in range(norb, size):
-                        claims.append(("padded diagonal %d above all discs" % p, z3.And(*[x0[b, p, p] > u for u in ups])))
-                        claims.append(("padded row %d decoupled" % p, z3.And(*[x0[b, p, j] == 0 for j in range(size) if j != p] + [x0[b, j, p] == 0 for j in range(size) if j != p])))
+                        claims.append(("padded diagonal %d above all discs" % p, z3.And(*[x0[f, p, p] > u for u in ups])))
+                        claims.append(("padded row %d decoupled" % p, z3.And(*[x0[f, p, j] == 0 for j in range(size) if j != p] + [x0[f, j, p] == 0 for j in range(size) if j != p])))
                         for q in range(p + 1, size):
-                            claims.append(("padded diagonals %d,%d distinct" % (p, q), x0[b, p, p] != x0[b, q, q]))
+                            claims.append(("padded diagonals %d,%d distinct" % (p, q), x0[f, p, p] != x0[f, q, q]))
                     for name, c in claims:
                         v, m = smt.prove(c, base, lab + ": " + name, "auto", 60)
                         if v == "sat":
-                            if replay_padding_shift(nheavy, nH):
-                                ob.violation("sym_eig_trunc: %s fails (%s): padding orbitals can mix with / sort below physical ones" % (name, lab), {"module": "harness.C03", "func": "replay_padding_shift", "args": {"nheavy": nheavy, "nH": nH}})
-                            else:
-                                raise HarnessError("padding-shift counterexample did not reproduce (%s %s)" % (lab, name))
+                            if replay_padding_shift(nheavy, nH, uhf):
+                                ob.violation("sym_eig_trunc: %s fails (%s): padding orbitals can mix with / sort below physical ones" % (name, lab), {"module": "harness.C03", "func": "replay_padding_shift", "args": {"nheavy": nheavy, "nH": nH, "uhf": uhf}})
+                                return
+                            raise HarnessError("padding-shift counterexample did not reproduce (%s %s)" % (lab, name))
                         else:
                             ob.verdict(v, lab + ": " + name)
-        # sensitivity twin: claim that padded diagonals exceed hN + 2*dE must be refuted
-        pc, side, x0 = res[0]
-        S.ST.side[:] = side
     finally:
         DG.DEGEN_EIGENSOLVER, DG.pytorch_symeig = saved
 
 
-def replay_padding_shift(nheavy, nH):
-    """float64: random symmetric physical blocks; eigenvalues of the padded matrix handed to the eigen-solver must be
-    the physical ones followed by strictly larger, distinct padding values"""
+def replay_padding_shift(nheavy, nH, uhf=False):
+    """float64: random symmetric physical blocks; the matrices handed to the eigen-solver must carry each molecule's (and
+    spin's) own physical block, followed by strictly larger, distinct, decoupled padding values"""
     from seqm.seqm_functions import diag as DG
 
     got = {}
@@ -474,37 +481,49 @@ def replay_padding_shift(nheavy, nH):
     saved = (DG.DEGEN_EIGENSOLVER, DG.pytorch_symeig)
     DG.DEGEN_EIGENSOLVER = False
     DG.pytorch_symeig = rec
+    nspin = 2 if uhf else 1
     try:
         g = torch.Generator().manual_seed(11)
         N = 4 * max(a + b for a, b in zip(nheavy, nH))
-        X = torch.zeros(2, N, N)
+        X = torch.zeros(2, nspin, N, N)
         phys = []
         for b in range(2):
             idx = list(range(4 * nheavy[b])) + [4 * nheavy[b] + 4 * h for h in range(nH[b])]
             phys.append(idx)
-            A = torch.rand(len(idx), len(idx), generator=g) * 4 - 2
-            A = A + A.T
-            for ii, i in enumerate(idx):
-                for jj, j in enumerate(idx):
-                    X[b, i, j] = A[ii, jj]
-        e, P, v = DG.sym_eig_trunc(X, torch.tensor(nheavy), torch.tensor(nH), torch.tensor([1, 1]))
+            for sp in range(nspin):
+                A = torch.rand(len(idx), len(idx), generator=g) * 4 - 2
+                A = A + A.T
+                for ii, i in enumerate(idx):
+                    for jj, j in enumerate(idx):
+                        X[b, sp, i, j] = A[ii, jj]
+        try:
+            if uhf:
+                DG.sym_eig_trunc(X, torch.tensor(nheavy), torch.tensor(nH), torch.tensor([[1, 1], [1, 1]]))
+            else:
+                DG.sym_eig_trunc(X[:, 0], torch.tensor(nheavy), torch.tensor(nH), torch.tensor([1, 1]))
+        except Exception as ex:  # noqa
+            print("replay sym_eig_trunc raised %s: %s" % (type(ex).__name__, str(ex)[:120]))
+            if "x0" not in got:
+                return True
     finally:
         DG.DEGEN_EIGENSOLVER, DG.pytorch_symeig = saved
     bad = False
     x0 = got["x0"]
-    for b in range(2):
+    for f in range(2 * nspin):
+        b, sp = (f // 2, f % 2) if uhf else (f, 0)
         norb = len(phys[b])
         size = x0.shape[1]
-        blk = X[b][phys[b]][:, phys[b]]
-        if (x0[b, :norb, :norb] - blk).abs().max().item() > 0:
-            print("replay pack mol %d: packed block differs from the physical block by %.3e" % (b, (x0[b, :norb, :norb] - blk).abs().max().item()))
+        blk = X[b, sp][phys[b]][:, phys[b]]
+        if norb > size or (x0[f, :norb, :norb] - blk).abs().max().item() > 0:
+            print("replay pack mol %d spin %d: packed block differs from the physical block" % (b, sp))
             bad = True
+            continue
         if norb == size:
             continue
-        ephys = torch.linalg.eigvalsh(x0[b, :norb, :norb])
-        pad = x0[b].diagonal()[norb:]
-        coupled = (x0[b, norb:, :norb].abs().max().item() if norb else 0.0)
-        print("replay padding mol %d: max physical eigenvalue %.4f, padded diagonal %s, coupling %.2e" % (b, ephys.max().item(), pad.tolist(), coupled))
+        ephys = torch.linalg.eigvalsh(x0[f, :norb, :norb])
+        pad = x0[f].diagonal()[norb:]
+        coupled = (x0[f, norb:, :norb].abs().max().item() if norb else 0.0)
+        print("replay padding mol %d spin %d: max physical eigenvalue %.4f, padded diagonal %s, coupling %.2e" % (b, sp, ephys.max().item(), pad.tolist(), coupled))
         if (pad <= ephys.max()).any() or coupled > 0 or len(set(pad.tolist())) != len(pad):
             bad = True
     return bad
